@@ -1045,4 +1045,127 @@ theorem encCalls_sim (p : Params) (hp : p.Valid) (i : Nat) (calls : List Call) :
     refine ⟨r2, acc2, by simp [encCalls, h1, k1], ?_, (h3 t).trans k3⟩
     rw [inputOf_cons, ← List.append_assoc]; exact k2
 
+theorem simV_fresh (pol : Policy) (tun : Tuning) : SimV (World.fresh pol tun) Iov.empty [] [] Woodpile.Pipe.empty :=
+  { inv := IovInv.empty _ ⟨none⟩ (by intro ca h; cases h)
+    cells := rfl
+    ghost := rfl
+    nid := rfl
+    holes_lt := by intro j hj; cases hj
+    tk_sorted := List.Pairwise.nil
+    tk_le := by intro b hb; cases hb
+    tk_ok := by intro e he; cases he
+    tk_len := by intro j e hj; simp at hj }
+
+/-- `Encoder::new` on a fresh iovec. -/
+theorem encInit_sim (p : Params) (pol : Policy) (tun : Tuning) :
+    ∃ w1 e1, encInit p (World.fresh pol tun) 0 = some (w1, e1) ∧
+      RunInv p 0 ⟨w1, e1, []⟩ [] (Enc.init p 0).2 ∧ e1.st = (Enc.init p 0).1 ∧ e1.nid = 1 := by
+  have hv : (World.fresh pol tun).iov 0 = some Iov.empty := rfl
+  obtain ⟨w1, v1, toks1, h1, h2, h3, _⟩ := applyStep_sim 0 [] ⟨.ext 0, 0, 0⟩ (Enc.init p 0).2
+    (World.fresh pol tun) Iov.empty [] Woodpile.Pipe.empty hv (simV_fresh pol tun)
+    (by simp [Enc.init, OpsOk, OpOk])
+    (by intro e he hb; simp only [Enc.init, List.mem_singleton] at he; subst he; cases hb)
+  refine ⟨w1, ⟨(Enc.init p 0).1, 1, toks1⟩, by simp only [encInit, h1], ?_, rfl, rfl⟩
+  refine ⟨v1, _, ((Enc.init p 0).2.map (·.op)).map Ev.prod, h2, h3, (runEv_prods _ _).symm, prodOps_prods _, ?_⟩
+  rw [run_total, Woodpile.Pipe.total_empty]
+  exact ⟨rfl, rfl, rfl, rfl, rfl, rfl⟩
+
+theorem finish_no_borrow (p : Params) (s : EncState) : ∀ e ∈ Enc.finish p s, e.method = .borrow → False := by
+  intro e he hb
+  rw [finish_eq] at he
+  simp only [List.mem_append, List.mem_singleton] at he
+  rcases he with he | he
+  · unfold flushE at he
+    split at he
+    · simp only [List.mem_singleton] at he; subst he; cases hb
+    · cases he
+  · subst he; cases hb
+
+theorem cells_of_total_bytes (q : Pipe) (bs : List UInt8) (h : q.total.cells = bs.map Cell.byte) :
+    q.cells.any (fun c => !c.isByte) = false ∧ q.consumed ++ cellBytes q.cells = bs := by
+  simp only [Woodpile.Pipe.Pipe.total] at h
+  constructor
+  · have : q.cells = (bs.drop q.consumed.length).map Cell.byte := by
+      have := congrArg (List.drop q.consumed.length) h
+      rw [List.drop_left' (by simp)] at this
+      rw [this, List.map_drop]
+    rw [this]; exact Woodpile.Pipe.any_hole_map_byte _
+  · have := congrArg cellBytes h
+    rw [Woodpile.Pipe.cellBytes_append] at this
+    simpa using this
+
+/-- `Encoder::finish`: does not panic; afterwards nothing is pending, no renaming is left, and
+drained ++ buffered is `Spec.encode` of all the input. -/
+theorem encFinish_sim (p : Params) (hp : p.Valid) (i : Nat) (r : Run) (input : List UInt8) (acc : List Emit)
+    (h : RunInv p i r input acc) :
+    ∃ w' v' evs, encFinish p r.w i r.e = some w' ∧ w'.iov i = some v' ∧ IovInv w' v' ∧
+      prodOps evs = (acc ++ Enc.finish p r.e.st).map (·.op) ∧
+      absCells w' v' = (runEv Woodpile.Pipe.empty evs).cells ∧
+      r.drained = (runEv Woodpile.Pipe.empty evs).consumed ∧
+      v'.hasPending = false ∧ r.drained ++ w'.flat v'.slices = Spec.encode p input ∧
+      w'.visible v' = w'.flat v'.slices := by
+  obtain ⟨v, q, evs, hv, hsim, hq, hev, hrel⟩ := h
+  obtain ⟨h1, _⟩ := fold_init_inv p hp input
+  obtain ⟨w', v', toks', k1, k2, k3, _⟩ := applyStep_sim i r.drained ⟨.ext 0, 0, 0⟩ (Enc.finish p r.e.st)
+    r.w v r.e.toks q hv hsim (finish_opsOk p hrel q rfl)
+    (fun e he hb => (finish_no_borrow p _ e he hb).elim)
+  have hfin := finish_sim p hp r.e.st r.e.nid q.total _ hrel h1
+  rw [fold_finish_encode p hp input] at hfin
+  have htot : (q.run ((Enc.finish p r.e.st).map (·.op))).total.cells = (Spec.encode p input).map Cell.byte := by
+    rw [run_total]; unfold runE at hfin; rw [hfin]
+  obtain ⟨hnh, hbytes⟩ := cells_of_total_bytes _ _ htot
+  have hcells : absCells w' v' = (q.run ((Enc.finish p r.e.st).map (·.op))).cells := by
+    rw [k3.cells, rename_of_no_hole _ _ hnh]
+  have hpend : v'.hasPending = false := by
+    rw [hasPending_eq_pending k3.inv, hcells]; exact hnh
+  obtain ⟨g1, g2⟩ := visible_all_of_no_pending k3.inv hpend
+  have hflat : w'.flat v'.slices = cellBytes (q.run ((Enc.finish p r.e.st).map (·.op))).cells := by
+    rw [← hcells, g2, g1]; simp
+  refine ⟨w', v', evs ++ ((Enc.finish p r.e.st).map (·.op)).map Ev.prod, by simp only [encFinish, k1]; rfl, k2,
+    k3.inv, ?_, ?_, ?_, hpend, ?_, g1⟩
+  · rw [Woodpile.Pipe.prodOps_append, hev, prodOps_prods, List.map_append]
+  · rw [Woodpile.Pipe.runEv_append, ← hq, runEv_prods]; exact hcells
+  · rw [Woodpile.Pipe.runEv_append, ← hq, runEv_prods]; exact k3.ghost
+  · rw [hflat, k3.ghost]; exact hbytes
+
+/-- `Encoder::new` followed by any calls: never panics; the invariant holds between calls. -/
+def encPrefix (p : Params) (pol : Policy) (tun : Tuning) (calls : List Call) : Option Run :=
+  match encInit p (World.fresh pol tun) 0 with
+  | none => none
+  | some (w1, e1) => encCalls p 0 ⟨w1, e1, []⟩ calls
+
+theorem encPrefix_inv (p : Params) (hp : p.Valid) (pol : Policy) (tun : Tuning) (calls : List Call) :
+    ∃ r acc, encPrefix p pol tun calls = some r ∧ RunInv p 0 r (inputOf calls) acc ∧
+      Enc.runPieces p (pieces calls) = acc ++ Enc.finish p r.e.st := by
+  obtain ⟨w1, e1, h1, h2, h3, h4⟩ := encInit_sim p pol tun
+  obtain ⟨r, acc, k1, k2, k3⟩ := encCalls_sim p hp 0 calls ⟨w1, e1, []⟩ [] _ h2
+  refine ⟨r, acc, by simp only [encPrefix, h1, k1], by simpa using k2, ?_⟩
+  simp only at k3
+  rw [h3, h4] at k3
+  exact k3
+
+theorem encRun_eq (p : Params) (pol : Policy) (tun : Tuning) (calls : List Call) :
+    encRun p pol tun calls =
+      match encPrefix p pol tun calls with
+      | none => none
+      | some r => (encFinish p r.w 0 r.e).map fun w' => (w', r.drained) := by
+  unfold encRun encPrefix
+  cases encInit p (World.fresh pol tun) 0 with
+  | none => rfl
+  | some x => rfl
+
+/-- The whole run. -/
+theorem encRun_sim (p : Params) (hp : p.Valid) (pol : Policy) (tun : Tuning) (calls : List Call) :
+    ∃ w' v' dr evs, encRun p pol tun calls = some (w', dr) ∧ w'.iov 0 = some v' ∧ IovInv w' v' ∧
+      prodOps evs = (Enc.runPieces p (pieces calls)).map (·.op) ∧
+      absCells w' v' = (runEv Woodpile.Pipe.empty evs).cells ∧
+      dr = (runEv Woodpile.Pipe.empty evs).consumed ∧
+      v'.hasPending = false ∧ dr ++ w'.flat v'.slices = Spec.encode p (inputOf calls) ∧
+      w'.visible v' = w'.flat v'.slices := by
+  obtain ⟨r, acc, h1, h2, h3⟩ := encPrefix_inv p hp pol tun calls
+  obtain ⟨w', v', evs, k1, k2, k3, k4, k5, k6, k7, k8, k9⟩ := encFinish_sim p hp 0 r _ acc h2
+  refine ⟨w', v', r.drained, evs, ?_, k2, k3, by rw [h3]; exact k4, k5, k6, k7, k8, k9⟩
+  rw [encRun_eq, h1]
+  simp only [k1, Option.map_some]
+
 end Woodpile.EncWorld
